@@ -104,6 +104,16 @@ PredEval(q, s) ==
                        ELSE IF s.t = "str" THEN B(s.v # "") ELSE "F"
     [] q = "always" -> "T"
     [] q = "boom" -> "E"
+    \* predicates that are classes: they are *called* with the sub-context (not used for an isinstance test)
+    [] q = "cbool" -> IF s.k = "D" THEN B(s.m # <<>>)                      \* bool(sub)
+                      ELSE IF Num(s) THEN B(s.n # 0)
+                      ELSE IF s.t = "str" THEN B(s.v # "") ELSE "F"
+    [] q = "cstr" -> IF s.k = "L" /\ s.t = "str" THEN B(s.v # "") ELSE "T"  \* str(sub): "None", "0", "{}", "[]" are not empty
+    [] q = "cint" -> IF Num(s) THEN B(s.n # 0)                             \* int(sub)
+                     ELSE IF s.k = "L" /\ s.t = "str" /\ s.v \in {"5", "1"} THEN "T" ELSE "E"
+    [] q = "cdict" -> IF s.k = "D" THEN B(s.m # <<>>)                      \* dict(sub)
+                      ELSE IF s.t = "list" \/ (s.t = "str" /\ s.v = "") THEN "F" ELSE "E"
+    [] q = "cuser" -> "T"                                                  \* an instance of a user class
 
 (***************************************************************************)
 (* Declarative semantics, written from the documentation.                  *)
